@@ -177,7 +177,7 @@ package state
 //@   invariant bound-to-address [C07]: self.address != nil && self.address.IP == self.id && self.address.verified
 //@ type State
 //@   guarded sessions by sessionsLock
-//@   invariant sessions-by-address [C07]: forall ip netip.Addr :: has(self.sessions, ip) ==> (self.sessions[ip] != nil ==> self.sessions[ip].id == ip)
+//@   invariant sessions-by-address [C07]: forall ip netip.Addr :: has(self.sessions, ip) ==> (self.sessions[ip] != nil && self.sessions[ip].id == ip)
 //@   invariant session-map [C13]: self.sessions != nil
 //@ func State.GetSession
 //@   modifies any("F|state.Session"), any("F|storage."), any("MP|map[net/netip.Addr]*state.Session")
@@ -223,3 +223,9 @@ package state
 //@ func EncryptionSession.initFinalize
 //@   requires s != nil
 //@   ensures directions-keyed-apart [C05,C04]: result == nil ==> s.inCipher != nil && s.outCipher != nil && aeadkey(s.inCipher) == base(s.inKey) && aeadkeyoff(s.inCipher) == off(s.inKey) && aeadkey(s.outCipher) == base(s.outKey) && aeadkeyoff(s.outCipher) == off(s.outKey) && len(s.inKey) == 32 && len(s.outKey) == 32 && base(s.inKey) == base(s.outKey) && off(s.inKey) != off(s.outKey)
+
+// The memory of accepted signed-frame timestamps lives in the session object. Dropping a session that has accepted
+// a signed frame forgets that memory: the same frame is accepted again by the next session for that router.
+// (This obligation FAILS on the current code - see /verif/KNOWN_FINDINGS.txt, C03 "signed frames after session expiry".)
+//@ func State.cleanSessions
+//@   callsite delete replay-memory-survives-session-cleanup [C03]: session.signing == nil || session.signing.seqHandler.latest.IsZero()
